@@ -762,6 +762,87 @@ def probe_builder():
     return out
 
 
+def probe_builder_precision():
+    """float arguments with many significant digits / extreme magnitudes (as numpy.float32, the way the parser hands them
+    over) must arrive in the built object to float32 precision -> [kind, argument, value, ok]"""
+    f32 = numpy.float32
+    vals = [f32(1.2345678e-5), f32(0.0123456789), f32(7.6543e-7), f32(123456.79), f32(3.0000002)]
+    a2f = {"preFract": "pre_fract", "postFract": "post_fract", "delay": "delay", "weight": "weight", "fract": "fract",
+           "x": "x", "y": "y", "z": "z"}
+
+    def ok(field_val, v):
+        a, b = float(field_val), float(v)
+        return a == b or abs(a - b) <= 1.2e-7 * max(abs(a), abs(b))
+    out = []
+    for kind, typ, cols in (("projection", "projection", True), ("electrical", "electricalProjection", False),
+                            ("continuous", "continuousProjection", False)):
+        for k, v in enumerate(vals):
+            nb = fresh_builder()
+            args = {"preFract": vals[k], "postFract": vals[(k + 1) % 5], "delay": vals[(k + 2) % 5], "weight": vals[(k + 3) % 5]}
+            try:
+                with contextlib.redirect_stdout(io.StringIO()):
+                    nb.handle_projection("PRJ", "PI", "PI", "SYN", hasWeights=cols, hasDelays=cols, type=typ)
+                    nb.handle_connection("PRJ", 1, "PI", "PI", "SYN", 0, 1, 0, args["preFract"], 0, args["postFract"],
+                                         delay=args["delay"] if kind == "projection" else 0, weight=args["weight"])
+                proj = nb.projections["PRJ"]
+                o = [o for vv in VARIANTS[kind] for o in getattr(proj, LISTS[vv])][0]
+                row = semrow(kind, o)
+                for a, val in args.items():
+                    if a == "delay" and kind != "projection":
+                        continue
+                    out.append([kind, a, repr(float(val)), bool(ok(row[a2f[a]], val))])
+            except Exception:  # noqa: BLE001
+                out.append([kind, "*", "exception", False])
+    for k, v in enumerate(vals):
+        nb = fresh_builder()
+        try:
+            nb.handle_input_list("IL", "PI", "COMP", 1)
+            nb.handle_single_input("IL", 1, 0, segId=0, fract=float(vals[k]), weight=float(vals[(k + 1) % 5]))
+            il = nb.input_lists["IL"]
+            o = (list(il.input) + list(il.input_ws))[0]
+            row = semrow("inputlist", o)
+            out.append(["inputlist", "fract", repr(float(vals[k])), bool(ok(row["fract"], vals[k]))])
+            out.append(["inputlist", "weight", repr(float(vals[(k + 1) % 5])), bool(ok(row["weight"], vals[(k + 1) % 5]))])
+        except Exception:  # noqa: BLE001
+            out.append(["inputlist", "*", "exception", False])
+        nb = fresh_builder()
+        nb.handle_population("PX", "compX", 1)
+        nb.handle_location(0, "PX", "compX", float(vals[k]), float(vals[(k + 1) % 5]), float(vals[(k + 2) % 5]))
+        row = semrow("population", nb.populations["PX"].instances[0])
+        for a, val in (("x", vals[k]), ("y", vals[(k + 1) % 5]), ("z", vals[(k + 2) % 5])):
+            out.append(["population", a, repr(float(val)), bool(ok(row[a], val))])
+    return out
+
+
+def probe_merge():
+    """neuroml.utils.add_all_to_document (the merge of the embedded XML into the loaded document): id-less entries are all
+    merged, an entry whose id is already in the SAME list is not duplicated, an equal id in another list does not suppress it,
+    order is kept -> [(name, ok)]"""
+    from neuroml.utils import add_all_to_document
+    n = neuroml
+    src = n.NeuroMLDocument(id="S")
+    for nm in ("ct1", "ct2", "ct3"):
+        src.ComponentType.append(n.ComponentType(name=nm))
+    src.properties.append(n.Property(tag="t1", value="v1"))
+    src.properties.append(n.Property(tag="t2", value="v2"))
+    for i in ("a", "b", "c"):
+        src.iaf_cells.append(n.IafCell(id=i, leak_reversal="-50mV", thresh="-55mV", reset="-70mV", C="0.2nF", leak_conductance="0.01uS"))
+    src.pulse_generators.append(n.PulseGenerator(id="a", delay="1ms", duration="2ms", amplitude="1nA"))
+    src.sine_generators.append(n.SineGenerator(id="a", delay="1ms", phase="0", duration="2ms", amplitude="1nA", period="3ms"))
+    tgt = n.NeuroMLDocument(id="T")
+    tgt.iaf_cells.append(src.iaf_cells[1])     # what NetworkBuilder appended already (a referenced component)
+    with contextlib.redirect_stdout(io.StringIO()):
+        add_all_to_document(src, tgt)
+    return [
+        ["idless_component_types_all_merged", [c.name for c in tgt.ComponentType] == ["ct1", "ct2", "ct3"]],
+        ["idless_properties_all_merged", [q.tag for q in tgt.properties] == ["t1", "t2"]],
+        ["same_id_same_list_not_duplicated", sorted(c.id for c in tgt.iaf_cells) == ["a", "b", "c"]],
+        ["order_of_the_others_kept", [c.id for c in tgt.iaf_cells if c.id != "b"] == ["a", "c"]],
+        ["same_id_in_other_lists_merged", [c.id for c in tgt.pulse_generators] == ["a"] and [c.id for c in tgt.sine_generators] == ["a"]],
+        ["source_untouched", len(src.ComponentType) == 3 and len(src.iaf_cells) == 3],
+    ]
+
+
 def probe_builder_strings():
     """handler string arguments -> object string fields (projection ids, populations, synapses, components)"""
     res = {}
@@ -1096,11 +1177,14 @@ def render(t):
     L.append("Definition select_probes : list selprobe :=\n  " + cl(["\n   " + x for x in sp]) + ".\n")
     L.append("Definition zero_cells : list (string * string * string * bool) := %s.\n" %
              cl(["(%s, %s, %s, %s)" % (cs(k), cs(v), cs(f), cb(ok)) for k, v, f, ok in t["zero"]]))
+    L.append("Definition builder_precision : list (string * string * string * bool) := %s.\n" %
+             cl(["(%s, %s, %s, %s)" % (cs(k), cs(a), cs(v), cb(ok)) for k, a, v, ok in t["precision"]]))
+    L.append("Definition merge_probe : list (string * bool) := %s.\n" % cl(["(%s, %s)" % (cs(k), cb(v)) for k, v in t["merge"]]))
     L.append("\nDefinition gen : h5gen := {| g_writer := writer_tables; g_reader := reader_tables; g_builder := builder_table;\n"
              "  g_sized_pop_w := sized_population_gattrs; g_sized_pop_r := sized_population_gattrs_r;\n"
              "  g_doc_w := document_gattrs_w; g_doc_r := document_gattrs_r; g_net_w := network_gattrs_w; g_net_r := network_gattrs_r;\n"
              "  g_prop_prefix := property_prefix_ok; g_none_notes := none_notes_read_as; g_absent_temp := absent_temperature_read_as;\n"
-             "  g_builder_strings := builder_strings; g_refusals := refusals; g_delay_units := delay_units;\n  g_select := select_probes; g_zero := zero_cells |}.")
+             "  g_builder_strings := builder_strings; g_refusals := refusals; g_delay_units := delay_units;\n  g_select := select_probes; g_zero := zero_cells; g_precision := builder_precision; g_merge := merge_probe |}.")
     return "\n".join(L) + "\n"
 
 
@@ -1122,6 +1206,8 @@ def main():
     t["delay_units"] = probe_delay_units()
     t["select"] = probe_selection()
     t["zero"] = probe_zero(t["writer"])
+    t["precision"] = probe_builder_precision()
+    t["merge"] = probe_merge()
     print(json.dumps({"json": t, "coq": render(t)}))
 
 
